@@ -183,7 +183,10 @@ class Linear(Sub):
         return st.fixed_dictionaries({
             "seed": st.integers(0, 10 ** 7), "nx": st.integers(1, 6), "nu": st.integers(1, 6), "ny": st.integers(1, 6),
             "filter": st.sampled_from(("EKF", "UKF")), "k": st.one_of(st.none(), st.integers(-5, 10)),
-            "steps": steps, "per_call": st.booleans(), "wc": st.sampled_from((False, False, False, True))})
+            "steps": steps, "per_call": st.booleans(), "wc": st.sampled_from((False, False, False, True)),
+            # how Q and R reach the filter: both registered / both per call (the `per_call` flag), or MIXED - both registered, one of
+            # them with a stale value that the call overrides (a per-step measurement covariance over a registered default)
+            "supply": st.sampled_from(("plain", "plain", "plain", "mixed_Q", "mixed_R"))})
 
     def oracle(self, case, rec):
         nx, nu, ny = case["nx"], case["nu"], case["ny"]
@@ -196,10 +199,14 @@ class Linear(Sub):
             k = -nx + 1
         T = lambda a: torch.tensor(a)
         Q, Rm = T(s["Q"]), T(s["R"])
-        if case["filter"] == "EKF":
-            flt = pp.module.EKF(model) if case["per_call"] else pp.module.EKF(model, Q, Rm)
+        supply = case.get("supply", "plain")
+        cls = pp.module.EKF if case["filter"] == "EKF" else pp.module.UKF
+        if supply == "plain":
+            flt = cls(model) if case["per_call"] else cls(model, Q, Rm)
         else:
-            flt = pp.module.UKF(model) if case["per_call"] else pp.module.UKF(model, Q, Rm)
+            stale = lambda M: 4.0 * M + 0.5 * torch.eye(M.shape[0], dtype=M.dtype)
+            flt = cls(model, stale(Q), Rm) if supply == "mixed_Q" else cls(model, Q, stale(Rm))
+        rec.label("supply:" + (supply if supply != "plain" else ("per_call" if case["per_call"] else "registered")))
         x, P = s["x"].copy(), s["P"].copy()
         name = case["filter"]
         offd = nx > 1 and float(np.abs(P - np.diag(np.diag(P))).max()) > 0.1 * float(np.abs(np.diag(P)).max())
@@ -214,6 +221,10 @@ class Linear(Sub):
             u = rs.randn(nu) * 10 ** rs.uniform(-1, 1)
             y = rs.randn(ny) * 10 ** rs.uniform(-1, 1.5)
             kw = {"Q": Q, "R": Rm} if case["per_call"] else {}
+            if supply == "mixed_Q":
+                kw = {"Q": Q}
+            elif supply == "mixed_R":
+                kw = {"R": Rm}
             if name == "UKF":
                 kw["k"] = k
             with rec.sut(name):
